@@ -52,8 +52,8 @@ class runtime_error(FeedbackResponse):
         exception_name_proper = add_indefinite_article(exception_name)
         try:
             exception_message = str(exception)
-        except Exception:
-            # A student-defined exception can have a broken __str__
+        except BaseException:
+            # A student-defined exception can have a broken __str__ (one that exits included)
             exception_message = "<exception str() failed>"
         exception_message = exception_message[0].upper() + exception_message[1:] if exception_message else ""
         if type(exception) not in EXCEPTION_FF_MAP:
